@@ -6,6 +6,7 @@
 // Floats are printed as bit patterns; words are mapped back to harness ids, so different structures are comparable.
 #include "lm/model.hh"
 #include "lm/binary_format.hh"
+#include "lm/enumerate_vocab.hh"
 #include "lm/left.hh"
 #include "lm/partial.hh"
 #include "util/file_piece.hh"
@@ -24,6 +25,18 @@ using namespace lm::ngram;
 static uint32_t bits(float f) { uint32_t i; memcpy(&i, &f, 4); return i; }
 
 struct Opts { std::map<std::string, std::string> kv; };
+
+// EnumerateVocab callback: records (index, spelling) in call order
+class Collect : public lm::EnumerateVocab {
+  public:
+    void Add(lm::WordIndex index, const StringPiece &str) {
+      std::ostringstream o;
+      o << std::hex << index << ':';
+      for (size_t i = 0; i < (size_t)str.size(); ++i) { char b[4]; snprintf(b, sizeof b, "%02x", (unsigned char)str.data()[i]); o << b; }
+      items.push_back(o.str());
+    }
+    std::vector<std::string> items;
+};
 
 template <class M> struct Runner {
   const M &m;
@@ -89,11 +102,22 @@ template <class M> int run(const char *file, const std::vector<std::string> &voc
   if (opt.kv.count("include_vocab")) config.include_vocab = opt.kv["include_vocab"] == "1";
   if (opt.kv.count("load_method")) {
     const std::string &l = opt.kv["load_method"];
-    config.load_method = l == "lazy" ? util::LAZY : l == "populate" ? util::POPULATE_OR_LAZY : l == "read" ? util::READ : util::PARALLEL_READ;
+    config.load_method = l == "lazy" ? util::LAZY : l == "populate" ? util::POPULATE_OR_LAZY : l == "populate_read" ? util::POPULATE_OR_READ : util::READ;
   }
+  Collect collect;
+  if (opt.kv.count("enumerate")) config.enumerate_vocab = &collect;
   try {
     M model(file, config);
-    std::cout << "loaded order=" << (unsigned)model.Order() << " bound=" << model.GetVocabulary().Bound() << std::endl;
+    std::cout << "loaded order=" << (unsigned)model.Order() << " bound=" << model.GetVocabulary().Bound();
+    {
+      ModelType mt; bool bin = RecognizeBinary(file, mt);
+      std::cout << " binary=" << (bin ? (int)mt : -1);
+    }
+    if (opt.kv.count("enumerate")) {
+      std::cout << " enum=";
+      for (size_t i = 0; i < collect.items.size(); ++i) std::cout << (i ? "," : "") << collect.items[i];
+    }
+    std::cout << std::endl;
     Runner<M> r(model, vocab);
     std::string line;
     while (std::getline(std::cin, line)) {
